@@ -1193,6 +1193,11 @@ func (db *DB) allocate(txid common.Txid, count int) (*common.Page, error) {
 		if err != nil {
 			return nil, fmt.Errorf("mmap size calculation error: %w", err)
 		}
+		if minsz < db.datasz {
+			// No remap will happen below, so grow() will size the file
+			// from the current (possibly larger) mapping.
+			nextMmapSize = db.datasz
+		}
 		if runtime.GOOS == "windows" {
 			// nextAllocSize may not exactly match nextMmapSize.
 			// On Windows, this mismatch may cause the file size to slightly exceed maxSize,
